@@ -6,7 +6,8 @@ CFG = dict(
         pre_cmds=[GO2LEAN],
         props_files=["ElysModel/Props/C07.lean", "ElysModel/Props/C07Src.lean"],
         runs=[dict(mode="c07", n_quick=1200, n_thorough=12000, shards_quick=8, shards_thorough=14),
-              dict(hist_run(nq=150, nt=400, sq=6, st=10, focus="lp."), driver="C07H", env_quick={"VERIF_HISTS": "1", "VERIF_FOCUS": "lp.", "VERIF_GOVSS": "1"}, env_thorough={"VERIF_HISTS": "3", "VERIF_FOCUS": "lp.", "VERIF_GOVSS": "1"})],
+              dict(hist_run(nq=150, nt=400, sq=6, st=10, focus="lp."), driver="C07H", env_quick={"VERIF_HISTS": "1", "VERIF_FOCUS": "lp.", "VERIF_GOVSS": "1"}, env_thorough={"VERIF_HISTS": "3", "VERIF_FOCUS": "lp.", "VERIF_GOVSS": "1"}),
+              dict(scn_run("c07"), driver="C07H")],
         rule="op sequences (bond / unbond / explicit bond-then-unbond-the-minted-shares pairs / keeper Borrow / Repay / interest accrual "
              "after generated time gaps / consistent TotalValue+cash gifts) on the real stablestake msg server and keeper, one vault per "
              "sequence (3 lenders, one of them passive, 1 borrower) on a branch of genesis; an evaluation is one op; non-trivial = the op "
